@@ -1119,3 +1119,21 @@ def latch_blocks(f, code):
             if t[0] == "const" and t[2] == 0:
                 out.append(bb)
     return sorted(set(out))
+
+
+def expand_getters_deep(f, t, depth=0):
+    """expand_getter applied to every accessor call inside the term (e.g. `(self.correlation_data() as Some).0`)"""
+    if depth > 6 or not isinstance(t, tuple):
+        return t
+    t2 = expand_getter(f, t)
+    if t2 is not t and t2 != t:
+        return expand_getters_deep(f, t2, depth + 1)
+    out = []
+    for x in t:
+        if isinstance(x, tuple):
+            out.append(expand_getters_deep(f, x, depth + 1))
+        elif isinstance(x, list):
+            out.append([expand_getters_deep(f, y, depth + 1) if isinstance(y, tuple) else y for y in x])
+        else:
+            out.append(x)
+    return tuple(out)
